@@ -363,8 +363,17 @@ def datatype_roundtrip():
     return cases, bad
 
 
+def module_constants():
+    """[F] import-time constants the contracts assume."""
+    bad = []
+    if xs.MANDATORY_VALUE_CHECKING is not True:
+        bad.append({'key': 'constant:MANDATORY_VALUE_CHECKING', 'detail': f'xml_structure.MANDATORY_VALUE_CHECKING is {xs.MANDATORY_VALUE_CHECKING!r}, the contracts assume True'})
+    return 1, bad
+
+
 if __name__ == '__main__':
     c = Collector()
+    c.run('C05.module_constants', 'F', module_constants, bound='MANDATORY_VALUE_CHECKING')
     c.run('C05.targets_distinct', 'F', targets_distinct, bound='every class with _props in 9 modules: attribute / element names of its properties are pairwise distinct')
     c.run('C05.schema_conformance', 'F', schema_conformance, bound='every class that maps to a complexType of the bundled XSDs (by NODETYPE or class name): property targets declared, element order = sequence order, required members covered')
     c.run('C05.type_conformance', 'F', type_conformance, bound='every scalar property of every class mapped to an xsd type: converter category vs xsd base type, enum members vs xsd enumerations, implied values vs xsd defaults')
